@@ -63,7 +63,9 @@ def units_for(prop):
     while work:
         u = work.pop()
         for inc in closure(u):
-            if inc not in seen and inc in us:
+            # an included unit is re-verified here only if it carries obligations of this property;
+            # otherwise its contracts are used as stubs and are checked under their own properties
+            if inc not in seen and inc in us and prop in us[inc].get("properties", []):
                 seen.add(inc)
                 sel.append(us[inc])
                 work.append(us[inc])
